@@ -504,7 +504,10 @@ def _type_name_for_error_messages(expression_type):
     elif expression_type.which_type == "enumeration":
         # TODO(bolms): Should this be the fully-qualified name?
         return expression_type.enumeration.name.canonical_name.object_path[-1]
-    assert False, "Shouldn't be here."
+    elif expression_type.which_type == "boolean":
+        return "boolean"
+    # Structures, arrays, and anything else that has no value.
+    return "opaque"
 
 
 def _type_check_passed_parameters(atomic_type, ir, source_file_name, errors):
